@@ -10,6 +10,7 @@ import Driver.MatcherDrv
 import Driver.PrintDrv
 import Driver.ClausesDrv
 import Driver.CoroDrv
+import Driver.RingDrv
 
 open Tromp
 
@@ -168,6 +169,7 @@ def main (args : List String) : IO UInt32 := do
   | ["print"] => Driver.printLoop stdin stdout; return 0
   | ["clauses"] => Driver.clausesLoop stdin stdout; return 0
   | ["coro"] => Driver.coroLoop stdin stdout {}; return 0
+  | ["ring"] => Driver.ringLoop stdin stdout {}; return 0
   | _ =>
     IO.eprintln "usage: tmodel world < script"
     return 2
